@@ -9,9 +9,11 @@
    Abstractions: titles are [N] tokens plus the flag "contains CR or LF" (the only
    thing the code inspects); labels, DIDs are [N]; close reasons are [N].
    [atomic] selects the op-application discipline: [false] = effects of the
-   actions preceding a failing action stay (the code as read on 2026-09-22);
-   [true] = a rejected op leaves the object untouched (apply-to-a-clone). The
-   harness measures which one the compiled code implements; every theorem holds
+   actions preceding a failing action stay (Issue::op / Patch::op before the
+   `fix:` commits e6be104 / b9ccd5c); [true] = a rejected op leaves the object
+   untouched (the actions are applied to a clone that replaces the state on
+   success — the code since those commits). The harness measures which one the
+   compiled code implements and passes it to the model; every theorem holds
    for both. *)
 From HW Require Import lib.Base lib.SMap model.CobThread.
 Local Open Scope N_scope.
